@@ -360,8 +360,9 @@ def write_evidence(prop, tier, seed, results, bounded, obligations, discharged, 
         ev['level'] = 'other'
         cov['explanation'] = (cov.get('explanation', '') + ' [this run left obligations open: '
                               f'{obligations - discharged} of {obligations}; known findings: {len(known_hits)}]').strip()
-    (VERIF / 'evidence').mkdir(exist_ok=True)
-    (VERIF / 'evidence' / f'{prop}.json').write_text(json.dumps(ev, indent=1, default=str))
+    evdir = Path(os.environ.get('VERIF_EVIDENCE_DIR') or (VERIF / 'evidence'))
+    evdir.mkdir(exist_ok=True, parents=True)
+    (evdir / f'{prop}.json').write_text(json.dumps(ev, indent=1, default=str))
 
 
 def _z3v():
